@@ -26,13 +26,17 @@ const chk = "doc-events"
 type Case struct {
 	Input string `json:"input"`
 	Hex   string `json:"hex,omitempty"`
+	// Before: what the Document object was used for before the judged full read: "next:<k>" reads
+	// k events, "len" and "check" call Len / Check (the first call of each scans the whole text and
+	// leaves the document at its start)
+	Before []string `json:"before,omitempty"`
 }
 
-func mk(in []byte) Case {
+func mk(in []byte, before ...string) Case {
 	if utf8.Valid(in) {
-		return Case{Input: string(in)}
+		return Case{Input: string(in), Before: before}
 	}
-	return Case{Hex: fmt.Sprintf("%x", in)}
+	return Case{Hex: fmt.Sprintf("%x", in), Before: before}
 }
 
 func (c Case) bytes() []byte {
@@ -50,18 +54,46 @@ func init() {
 		if err := json.Unmarshal(raw, &c); err != nil {
 			t.Fatalf("bad case: %v", err)
 		}
-		check(t, c.bytes())
+		check(t, c.bytes(), c.Before...)
 	})
 }
 
 // events drains NextLexeme. A panic or a non-EOF error is returned as msg.
-func events(in []byte) (evs []lex.Ev, msg string) {
+func events(in []byte, before ...string) (evs []lex.Ev, msg string) {
 	defer func() {
 		if r := recover(); r != nil {
 			msg = fmt.Sprintf("NextLexeme panicked: %v", r)
 		}
 	}()
 	d := libjson.New("doc", in)
+	rewound := true
+	for _, op := range before {
+		switch {
+		case op == "len":
+			if _, err := d.Len(); err != nil {
+				return nil, fmt.Sprintf("Len returned %v for a valid JSON text", err)
+			}
+			rewound = true
+		case op == "check":
+			if err := d.Check(); err != nil {
+				return nil, fmt.Sprintf("Check returned %v for a valid JSON text", err)
+			}
+			rewound = true
+		default:
+			k := 0
+			fmt.Sscanf(op, "next:%d", &k)
+			for i := 0; i < k; i++ {
+				if _, err := d.NextLexeme(); err != nil {
+					break
+				}
+			}
+			rewound = false
+		}
+	}
+	if !rewound {
+		t := "harness bug: a history must end with len or check"
+		return nil, t
+	}
 	for i := 0; ; i++ {
 		l, err := d.NextLexeme()
 		if err != nil {
@@ -88,24 +120,28 @@ func events(in []byte) (evs []lex.Ev, msg string) {
 }
 
 // check: in must be a valid JSON text; the model is obtained by the reference parser.
-func check(t run.TB, in []byte) {
+func check(t run.TB, in []byte, before ...string) {
 	model, perr := ref.Parse(in)
 	if perr != nil {
 		t.Fatalf("harness bug: input is not valid JSON: %v", perr)
 	}
-	got, msg := events(in)
+	after := ""
+	if len(before) > 0 {
+		after = fmt.Sprintf(" [full read after %v on the same Document]", before)
+	}
+	got, msg := events(in, before...)
 	if msg != "" {
-		run.Fail(t, chk, mk(in), "%s", msg)
+		run.Fail(t, chk, mk(in, before...), "%s%s", msg, after)
 	}
 	if m := lex.Compare(got, lex.Expected(model), len(in)); m != "" {
-		run.Fail(t, chk, mk(in), "%s", m)
+		run.Fail(t, chk, mk(in, before...), "%s%s", m, after)
 	}
 	rebuilt, m := lex.Rebuild(got, in)
 	if m != "" {
-		run.Fail(t, chk, mk(in), "cannot rebuild the value from the events: %s", m)
+		run.Fail(t, chk, mk(in, before...), "cannot rebuild the value from the events: %s%s", m, after)
 	}
 	if !gen.Equal(rebuilt, model, false) {
-		run.Fail(t, chk, mk(in), "value rebuilt from the events differs from the JSON value")
+		run.Fail(t, chk, mk(in, before...), "value rebuilt from the events differs from the JSON value%s", after)
 	}
 }
 
@@ -145,6 +181,19 @@ func TestDocEvents(t *testing.T) {
 		check(t, text)
 		run.Eval(chk, nontrivial(model, text), string(text))
 		run.Sample(chk, mk(text))
+		// a partial read followed by Len or Check (both start over), then the full read again
+		if rapid.IntRange(0, 1).Draw(t, "reuse") == 0 {
+			// (only the first Len and the first Check scan the text - later calls return the
+			// remembered result and leave the read position alone - so each is used at most once)
+			var before []string
+			restarts := rapid.Permutation([]string{"len", "check"}).Draw(t, "restarts")
+			for i, n := 0, rapid.IntRange(1, 2).Draw(t, "nrounds"); i < n; i++ {
+				before = append(before, fmt.Sprintf("next:%d", rapid.IntRange(1, 24).Draw(t, "k")), restarts[i])
+			}
+			check(t, text, before...)
+			run.Eval(chk, false)
+			run.Label("full-read-after-partial-read-and-restart")
+		}
 		if model.Kind != ref.KObject && model.Kind != ref.KArray {
 			run.Label("top-level-scalar")
 			if c := text[len(text)-1]; c >= '0' && c <= '9' {
